@@ -383,6 +383,56 @@ func ruleBackup(c *Ctx) {
 		switch r := root.(type) {
 		case *ssa.Parameter:
 			okSrc = r == bk.Params[0]
+			if !okSrc && r.Parent() == copyFn && copyFn != bk {
+				// a helper that runs inside the transaction: every caller passes the database Backup was called on
+				idx := paramIndex(copyFn, r)
+				callers := c.P.CallersOf(copyFn)
+				okSrc = len(callers) > 0
+				for _, s := range callers {
+					if idx >= len(s.Common().Args) {
+						okSrc = false
+						continue
+					}
+					a := resolve1(s.Common().Args[idx])
+					isDB := false
+					switch y := a.(type) {
+					case *ssa.Parameter:
+						isDB = y == bk.Params[0]
+					case *ssa.FreeVar:
+						cl := s.Parent()
+						for i, fv := range cl.FreeVars {
+							if fv == y {
+								calls(bk, func(ci ssa.CallInstruction) {
+									for _, arg := range ci.Common().Args {
+										if mc, ok := arg.(*ssa.MakeClosure); ok && mc.Fn == ssa.Value(cl) && i < len(mc.Bindings) && sameValue(capturedParam(mc.Bindings[i]), bk.Params[0]) {
+											isDB = true
+										}
+									}
+								})
+							}
+						}
+					case *ssa.UnOp:
+						// load of the captured variable
+						if fv, ok := y.X.(*ssa.FreeVar); ok {
+							cl := s.Parent()
+							for i, f2 := range cl.FreeVars {
+								if f2 == fv {
+									calls(bk, func(ci ssa.CallInstruction) {
+										for _, arg := range ci.Common().Args {
+											if mc, ok := arg.(*ssa.MakeClosure); ok && mc.Fn == ssa.Value(cl) && i < len(mc.Bindings) && sameValue(capturedParam(mc.Bindings[i]), bk.Params[0]) {
+												isDB = true
+											}
+										}
+									})
+								}
+							}
+						}
+					}
+					if !isDB {
+						okSrc = false
+					}
+				}
+			}
 		case *ssa.FreeVar:
 			// captured db
 			okSrc = false
@@ -464,17 +514,34 @@ func ruleGlobals(c *Ctx) {
 				all = append(all, ci.Common().Value)
 			}
 			for _, a := range all {
-				ld, ok := resolve1(a).(*ssa.UnOp)
-				if !ok || ld.Op != token.MUL {
-					continue
+				var g *ssa.Global
+				switch x := resolve1(a).(type) {
+				case *ssa.UnOp:
+					if x.Op != token.MUL {
+						continue
+					}
+					gg, ok := x.X.(*ssa.Global)
+					if !ok {
+						continue
+					}
+					switch derefT(gg.Type()).Underlying().(type) {
+					case *types.Pointer, *types.Map, *types.Slice, *types.Chan:
+					default:
+						continue
+					}
+					g = gg
+				case *ssa.Slice:
+					// a slice of a package-level array: the callee writes/reads the shared storage
+					if gg, ok := x.X.(*ssa.Global); ok {
+						g = gg
+					}
+				case *ssa.Global:
+					// the address of a package-level variable itself
+					if _, isErr := derefT(x.Type()).Underlying().(*types.Interface); !isErr {
+						g = x
+					}
 				}
-				g, ok := ld.X.(*ssa.Global)
-				if !ok || g.Pkg == nil || !strings.HasPrefix(g.Pkg.Pkg.Path(), modPath) {
-					continue
-				}
-				switch derefT(g.Type()).Underlying().(type) {
-				case *types.Pointer, *types.Map, *types.Slice, *types.Chan:
-				default:
+				if g == nil || g.Pkg == nil || !strings.HasPrefix(g.Pkg.Pkg.Path(), modPath) {
 					continue
 				}
 				nRef++
